@@ -328,7 +328,11 @@ func baseOverlay(repo, verif, id string) (map[string][]byte, error) {
 	if id == "" {
 		return ov, nil
 	}
-	data, err := os.ReadFile(filepath.Join(verif, "refactorings", id, "patch.diff"))
+	pth := filepath.Join(verif, "refactorings", id, "patch.diff")
+	if _, err := os.Stat(filepath.Join(verif, "refactorings", id, "patch_head.diff")); err == nil {
+		pth = filepath.Join(verif, "refactorings", id, "patch_head.diff")
+	}
+	data, err := os.ReadFile(pth)
 	if err != nil {
 		return nil, err
 	}
@@ -392,6 +396,11 @@ func runRefactorings(repo, verif, prop string, pr *rules.Prop, res *core.Result)
 	var overlays []map[string][]byte
 	for _, pth := range dirs {
 		id := filepath.Base(filepath.Dir(pth))
+		// a refactoring whose patch no longer applies to the current tree (a later fix: commit rewrote the same lines)
+		// carries a hand-rebased patch_head.diff
+		if _, err := os.Stat(filepath.Join(filepath.Dir(pth), "patch_head.diff")); err == nil {
+			pth = filepath.Join(filepath.Dir(pth), "patch_head.diff")
+		}
 		data, err := os.ReadFile(pth)
 		if err != nil {
 			continue
